@@ -147,8 +147,8 @@ def candidates(prog, f, keep=None):
             continue
         if len(t["args"]) != g.argc:
             continue
-        if g.locals[0].startswith(("core::result::Result<", "core::option::Option<core::result::Result<")) and not (_question_mark(f, t) or _tail_result(f, t)):
-            continue            # its error returns would merge into paths that carry on: only `helper(..)?` and `return helper(..)` are looked through
+        # (a fallible helper whose result is neither `?`-ed nor returned is looked through as well -- its error returns then simply flow on
+        #  into the caller as values; jump threading keeps a following `match` honest -- see the splice loop for the other two cases)
         # a helper that calls back into f, or itself, stays a call
         if any(k in (f.key, g.key) for _b2, t2 in g.calls() for k in prog.targets(t2)):
             continue
@@ -761,7 +761,9 @@ def view(prog, f, keep=None, depth=2):
                 blk["st"].append({"s": "=", "lhs": {"l": off + 1 + i, "p": []}, "rv": {"r": "use", "a": copy.deepcopy(a)}, "sp": sp, "inl": g.key})
             dest, to = t["dest"], t["to"]
             blk["term"] = {"t": "goto", "to": base, "sp": sp}
-            if g.locals[0].startswith(("core::result::Result<", "core::option::Option<core::result::Result<")):
+            if g.locals[0].startswith(("core::result::Result<", "core::option::Option<core::result::Result<")) and \
+                    (_question_mark(cur, cur.blocks[bidx].term) or _tail_result(cur, cur.blocks[bidx].term)):
+                # under `?` (or as the caller's own result) the helper's error returns end the caller too
                 from . import prim as P
                 for (eb, ei) in P.error_points(g):
                     inl_err.append((base + eb, ei))
